@@ -97,6 +97,21 @@ def parseFault (x : String) : Option (Nat × FaultKind) :=
     | _, _ => none
   | [] => none
 
+def parseOutcome (s : String) : Outcome :=
+  match s.splitOn ":" with
+  | ["r", a, b] => match a.toInt?, b.toInt? with
+    | some x, some y => .ret x y
+    | _, _ => .exhausted
+  | ["e", k] => .err (k.toInt?.getD 98)
+  | ["p"] => .pause
+  | ["c"] => .cancel
+  | ["n", a] => .nested (a.toInt?.getD 0)
+  | ["t", a] => .timer (a.toInt?.getD 0)
+  | ["z"] => .zero
+  | ["ze"] => .zeroErr
+  | ["k"] => .ok
+  | _ => .exhausted
+
 def parseEnv (fs : List String) : Option Env :=
   fs.foldlM (fun (env : Env) x =>
     if x.startsWith "f=" then
@@ -106,7 +121,7 @@ def parseEnv (fs : List String) : Option Env :=
         some { env with faults := l }
     else if x.startsWith "o=" then
       let v := (x.drop 2).toString
-      if v == "-" then some env else some { env with outcomes := v.splitOn "," }
+      if v == "-" then some env else some { env with outcomes := (v.splitOn ",").map parseOutcome }
     else if x.startsWith "s=" then do
       let n ← (x.drop 2).toString.toNat?
       some { env with stale := n }
